@@ -804,10 +804,11 @@ Definition k1_signature (r : rstate) (q : wreq) : bool :=
 
 Definition snapshot_ok (r : rstate) (s : snapshot) : bool :=
   (0 <? s_idx s) && (s_idx s <? c14_MaxUint64) && (0 <? s_term s) && conf_ok (s_conf s)
-  (* a re-save at the stored index with the same size and checksum carries the same bytes *)
-  && (negb ((s_idx s =? r_sidx r) && (s_term s =? s_term (r_snap r)) && conf_eqb (s_conf s) (s_conf (r_snap r))
-            && (blen (s_data s) =? blen (s_data (r_snap r))) && (s_sum s =? s_sum (r_snap r)))
-      || bytes_eqb (s_data s) (s_data (r_snap r))).
+  (* the checksum is a function of the bytes and, for a re-save at the stored index,
+     does not collide: same size and checksum <-> same bytes *)
+  && (negb ((s_idx s =? r_sidx r) && (s_term s =? s_term (r_snap r)) && conf_eqb (s_conf s) (s_conf (r_snap r)))
+      || Bool.eqb (bytes_eqb (s_data s) (s_data (r_snap r)))
+                  ((blen (s_data s) =? blen (s_data (r_snap r))) && (s_sum s =? s_sum (r_snap r)))).
 
 Definition req_valid (r : rstate) (q : wreq) : bool :=
   match q with
